@@ -46,7 +46,7 @@ fn main() {
             run.go(subs)
         },
         "C06" => {
-            let run = Run::new(args, "exploration");
+            let run = Run::new(args, "fault_enumeration");
             let subs = c06::subs(&run);
             run.go(subs)
         },
